@@ -103,7 +103,7 @@ func goldmarkRender(src string) (res refResult) {
 var (
 	namedEntity      = regexp.MustCompile(`&[a-zA-Z0-9]+;`)
 	setextLine       = regexp.MustCompile(`(?m)^[ >]*(=+|-+)[ \t]*$`)
-	headingAttr      = regexp.MustCompile(`(?m)^[ >\-+*0-9.)]*#{1,6}[ \t].* \{[^}]+\}[ \t#]*$`)
+	headingAttr      = regexp.MustCompile(`(?m)^[ >\-+*0-9.)]*#{1,6}[ \t].*\{[^}]+\}[ \t#]*$`)
 	numericRef       = regexp.MustCompile(`&#(?:[xX][0-9a-fA-F]{1,6}|[0-9]{1,7});`)
 	hrefSrcAttr      = regexp.MustCompile(`(href|src)="([^"]*)"`)
 	looseItem        = regexp.MustCompile(`<li>([^<]+)</li>`)
@@ -115,7 +115,7 @@ var (
 )
 
 // entities on which pkg/md and CommonMark agree (both decode them the same way)
-var agreedEntities = map[string]bool{"lt": true, "gt": true, "amp": true, "apos": true,
+var agreedEntities = map[string]bool{"lt": true, "gt": true, "amp": true, "apos": true, "quot": true,
 	"Tab": true, "NewLine": true, "nbsp": true}
 
 // unsupportedSyntactic names the documented omission a document uses, judged
@@ -345,6 +345,8 @@ var (
 	emptyItemSpace = regexp.MustCompile(`^[ >]*(?:[-+*]|[0-9]{1,9}[.)]) +$`)
 	bqThenItem     = regexp.MustCompile(`^ {0,3}>[> ]*(?:[-+*]|([0-9]{1,9})[.)])(?: +(\S)|[ ]*$)`)
 	startsQuote    = regexp.MustCompile(`^ {0,3}>`)
+	spaceOnlyLine  = regexp.MustCompile(`(?m)^[ >]* +$`)
+	listMarkerLine = regexp.MustCompile(`(?m)^[ >]*(?:[-+*]|[0-9]{1,9}[.)])(?: |$)`)
 )
 
 // findingClass gives inputs of the recorded deviation classes of pkg/md their
@@ -353,7 +355,7 @@ func findingClass(src string, ref refResult) string {
 	if nulRef.MatchString(src) {
 		return "numeric-charref-nul"
 	}
-	if strings.Contains(src, "&quote;") {
+	if strings.Contains(src, "&quote;") || strings.Contains(src, "&quot;") {
 		return "entity-quote"
 	}
 	lines := strings.Split(src, "\n")
@@ -373,5 +375,29 @@ func findingClass(src string, ref refResult) string {
 	if ref.IndentedContinuation {
 		return "indented-continuation-in-multiline-inline"
 	}
+	if spaceOnlyLine.MatchString(src) && listMarkerLine.MatchString(src) &&
+		(strings.Contains(src, "```") || strings.Contains(src, "~~~")) {
+		return "space-only-line-in-fenced-code-in-list-item"
+	}
 	return ""
+}
+
+// reliableShape says whether a document lies in the class for which goldmark
+// was triaged as a reliable reference: no brackets (links, images), no angle
+// brackets (raw HTML, autolinks, HTML blocks) — every defect of goldmark found
+// during triage involves one of these, or one of the shapes refQuirk excludes.
+// In this class a disagreement with goldmark alone is reported as a violation;
+// outside it, it is reported only if shrinking leads into the class, and
+// otherwise recorded in the evidence as a candidate (see c35.go).
+func reliableShape(src string) bool {
+	return !strings.ContainsAny(src, "[]<") && utf8Plain(src)
+}
+
+func utf8Plain(src string) bool {
+	for _, r := range src {
+		if r == 0xFFFD || r == 0 {
+			return false
+		}
+	}
+	return true
 }
